@@ -845,3 +845,46 @@ def r11_2(ctx):
         forms = [mn[0], mn[1]]
         ok = ({("local", beta): 1}, 0) in forms and ({("local", ply): -1}, mate) in forms
     ctx.ob("alpha_beta_search:mate-distance:beta", ok, b.where(mn[2]) if mn else b.file, "beta = min(beta, MATE_SCORE - ply)")
+
+
+NONDET = ("std::time::Instant::now", "std::time::SystemTime::now", "rand::thread_rng", "std::env::", "std::thread::current",
+          "std::collections::HashMap::<K, V, S, A>::iter", "std::collections::HashMap::<K, V, S, A>::keys", "std::collections::HashMap::<K, V, S, A>::values",
+          "std::collections::HashMap::<K, V, S, A>::drain", "std::collections::hash_map", "std::process::id", "getrandom", "rand::random",
+          "rand_chacha::rand_core::SeedableRng::from_entropy", "SeedableRng::from_os_rng", "from_entropy")
+
+
+def r7_5(ctx):
+    """Clock-only nondeterminism: in cone(get_best_move) the only nondeterministic inputs are the
+    clock reads of out_of_time (decision-relevant) and of send_search_info (output field only)."""
+    from wa import callgraph
+    f = ctx.facts
+    cg = callgraph.get(f)
+    cone = sorted(cg.cone(GBM))
+    ctx.note_fn(*cone)
+    n = 0
+    for fn in cone:
+        for c in sorted(cg.ext[fn]):
+            if any(c.startswith(p) or p in c for p in NONDET):
+                n += 1
+                ok = c == "std::time::Instant::now" and fn in (OOT, SEND_INFO)
+                ctx.ob("cone(get_best_move):%s:%s" % (fn.split("::")[-1], c.split("::")[-1]), ok, f.body(fn).file,
+                       "`%s` in %s: the search may consult nothing nondeterministic but the clock (in out_of_time, and for the `time` field of info lines)" % (c, fn))
+    # the seed of the hasher is a constant
+    for fn in cone:
+        b = f.body(fn)
+        ex = Exprs(b)
+        for bb, t in b.iter_calls():
+            if (callee_of(t) or "").endswith("seed_from_u64"):
+                a = ex.call_args(bb)[0]
+                ctx.ob("cone(get_best_move):%s:constant-seed" % fn.split("::")[-1], a[0] == "const", b.where(b.term_loc(bb)), "hasher seeded with `%s`" % show_expr(a, b))
+    # in send_search_info the clock value reaches no branch
+    b = f.body(SEND_INFO)
+    ex = Exprs(b)
+    bad = []
+    for s in b.normal:
+        if s in b.reachable and b.term(s)["k"] == "switch":
+            d = ex.switch_discr(s)
+            if any(x[0] == "call" and x[1] == "std::time::Instant::now" for x in data_slice(ex, d)):
+                bad.append(b.where(b.term_loc(s)))
+    ctx.ob("send_search_info:clock-not-decision-relevant", not bad, bad[0] if bad else b.file, "the clock read of the info line feeds only the printed `time` field")
+    ctx.floor("clock reads in the search cone", n, 2)
